@@ -19,7 +19,8 @@ WDIR = os.path.join(facts.CACHE, "witness")
 
 
 def _write_crate(name, files, features, extra_deps=""):
-    d = os.path.join(WDIR, name)
+    # one directory per process: concurrent checks (e.g. the self-test on scratch copies) must not clobber each other
+    d = os.path.join(WDIR, "%s-%d" % (name, os.getpid()))
     if os.path.isdir(d):
         shutil.rmtree(d)
     os.makedirs(os.path.join(d, "src"))
@@ -45,7 +46,7 @@ def build(name, files, features=(), release=False, debug_assertions=True):
     """Compile the witness crate under the driver. Returns (ok, Crate|None, diagnostics[list of dict])"""
     facts.ensure_driver()
     d = _write_crate(name, files, features)
-    out = os.path.join(WDIR, name + "-facts")
+    out = os.path.join(WDIR, "%s-facts-%d" % (name, os.getpid()))
     if os.path.isdir(out):
         shutil.rmtree(out)
     os.makedirs(out)
@@ -86,7 +87,37 @@ def build(name, files, features=(), release=False, debug_assertions=True):
                 data = json.load(fh)
             if data.get("nonce") == nonce:
                 crate = facts.Crate(data)
+    shutil.rmtree(d, ignore_errors=True)
+    shutil.rmtree(out, ignore_errors=True)
+    _gc(target)
     return r.returncode == 0 and crate is not None, crate, diags, r.stderr[-3000:]
+
+
+def _gc(target):
+    """witness crates live at per-process paths, so cargo keeps one set of artifacts per run: drop those older than an hour"""
+    import time
+    now = time.time()
+    for prof in ("debug", "release"):
+        for sub in ("deps", ".fingerprint", "incremental"):
+            dd = os.path.join(target, prof, sub)
+            if not os.path.isdir(dd):
+                continue
+            for x in os.listdir(dd):
+                if "bsq_witness" in x:
+                    pth = os.path.join(dd, x)
+                    try:
+                        if now - os.path.getmtime(pth) > 3600:
+                            shutil.rmtree(pth) if os.path.isdir(pth) else os.remove(pth)
+                    except OSError:
+                        pass
+    if os.path.isdir(WDIR):
+        for x in os.listdir(WDIR):
+            pth = os.path.join(WDIR, x)
+            try:
+                if now - os.path.getmtime(pth) > 3600:
+                    shutil.rmtree(pth, ignore_errors=True)
+            except OSError:
+                pass
 
 
 DOCTEST_RE = re.compile(r"^test (\S+) - (\S+) \(line (\d+)\)( - compile fail| - compile)? \.\.\. (ok|FAILED)", re.M)
@@ -104,4 +135,5 @@ def doctests(name, lib_src, features=()):
     res = {}
     for m in DOCTEST_RE.finditer(r.stdout):
         res[m.group(2)] = m.group(5)
+    shutil.rmtree(d, ignore_errors=True)
     return res, r.stdout[-4000:] + r.stderr[-2000:], r.returncode
